@@ -483,9 +483,21 @@ def conv_cases(draw):
     else:
         r = draw(gm.recipes3d(types=cs.T3D_CHEAP, affine_ok=False))
     consts = [draw(st.integers(1, 12)) / 4.0 * draw(st.sampled_from([-1.0, 1.0])) + 0.125 * j for j in range(8)]
+    # collapse: the triangles of a TRI3 mesh handed over as degenerate quadrangles [a, b, c, c] (a node listed twice in an
+    # element: the classical collapsed element, positive jacobian at every integration point)
     return dict(recipe=r, api=draw(st.sampled_from(["reshape", "reshape", "get_node_values", "result"])),
                 storage=draw(st.sampled_from(["nodes", "elems"])), layout=draw(st.sampled_from(["scalar1d", "cols2d", "flat1d"])),
-                pick=draw(st.integers(0, 40)), consts=consts)
+                pick=draw(st.integers(0, 40)), consts=consts, collapse=draw(st.booleans()))
+
+
+def _collapsed(mesh):
+    from EasyFEA import ElemType, Mesh
+    from EasyFEA.FEM._group_elem import GroupElemFactory
+
+    g = gm.main_groups(mesh)[0]
+    tri = np.asarray(g.connect, int)
+    quad = np.column_stack([tri, tri[:, 2]])
+    return Mesh({ElemType.QUAD4: GroupElemFactory.Create(ElemType.QUAD4, quad, np.asarray(mesh.coord, float))})
 
 
 def _const_check(rec, out, N, ncomp, layout, consts, what, sig, mesh):
@@ -509,6 +521,10 @@ def check_conversion(case, rec):
     mesh = gm.build(case["recipe"])
     if mesh.Nn > 450:
         raise Inconclusive("mesh too large for the quick budget")
+    collapsed = bool(case.get("collapse") and gm.mesh_types(mesh) == "TRI3" and not case["recipe"].get("orphans"))
+    if collapsed:
+        mesh = _collapsed(mesh)
+        rec.label("collapsed_elements")
     Nn, Ne = mesh.Nn, mesh.Ne
     types = gm.mesh_types(mesh)
     api, storage, layout = case["api"], case["storage"], case["layout"]
@@ -572,6 +588,7 @@ def check_conversion(case, rec):
         # Get_list_groupElem(dim) order as documented): each node gets the average over the elements around it
         X = np.asarray(mesh.coord, float)
         vals, acc, cnt = [], np.zeros(Nn), np.zeros(Nn)
+        lo_n, hi_n = np.full(Nn, np.inf), np.full(Nn, -np.inf)
         for g in gm.main_groups(mesh):
             conn = np.asarray(g.connect, int)
             cen = X[conn].mean(axis=1)
@@ -581,10 +598,20 @@ def check_conversion(case, rec):
                 nn = np.unique(conn[e])
                 acc[nn] += f[e]
                 cnt[nn] += 1
+                lo_n[nn] = np.minimum(lo_n[nn], f[e])
+                hi_n[nn] = np.maximum(hi_n[nn], f[e])
         v_e = np.concatenate(vals)
         got = np.asarray(mesh.Get_Node_Values(v_e.copy()), float).ravel()
         used = cnt > 0
-        rec.close(got[used] - acc[used] / cnt[used], float(np.abs(v_e).max()), 1e-12, "node_values_mean_of_neighbours",
+        if collapsed:
+            # an element that lists a node twice: its weight in the average at that node is a convention; whatever the
+            # weights, the nodal value is a mean of the surrounding element values
+            eps = 1e-12 * float(np.abs(v_e).max())
+            rec.require(bool(np.all(got[used] >= lo_n[used] - eps) and np.all(got[used] <= hi_n[used] + eps)), "node_values_within_neighbours",
+                        f"{types} (collapsed elements): mesh.Get_Node_Values leaves the range of the surrounding element values",
+                        **dict(base, storage="elems", target="node", layout="scalar1d", ambiguous="no"))
+        else:
+            rec.close(got[used] - acc[used] / cnt[used], float(np.abs(v_e).max()), 1e-12, "node_values_mean_of_neighbours",
                   f"{types}: mesh.Get_Node_Values of a non-constant element field is not the average over the surrounding elements",
                   **dict(base, storage="elems", target="node", layout="scalar1d", ambiguous="no"))
     else:
@@ -933,7 +960,11 @@ def check_dyn_reactions(case, rec):
         ref = ref + M @ a
         terms.append(abs(M) @ np.abs(a))
     rng = np.random.default_rng(int(case["pick"]))
-    dofs = np.sort(rng.choice(n, size=max(1, n // 3), replace=False))
+    dofs = rng.choice(n, size=max(1, n // 3), replace=False)
+    if int(case["pick"]) % 2 == 0:
+        dofs = np.sort(dofs)  # ascending, as Bc_dofs_nodes gives them for ascending nodes; otherwise in the caller's own order
+    else:
+        rec.label("dofs:unsorted")
     R = np.asarray(simu.Calc_Reaction(dofs.copy()), float)
     rec.require(R.shape == (dofs.size,), "reaction_shape", f"Calc_Reaction returned shape {R.shape} for {dofs.size} dofs", **sig)
     scale = float(np.max(sum(terms))) + 1e-300
